@@ -1089,7 +1089,8 @@ func nearNumber(r *rng, lit string) string {
 			return lit[:len(lit)-1] + "8"
 		}
 		return lit[:len(lit)-1] + string(last+1)
-	case r.chance(1, 3):
+	case r.chance(1, 3) && strings.TrimLeft(lit, "-") != "0":
+		// (not for 0 / -0: a digit after a leading zero is not a JSON number)
 		return lit + "0000000000000000" + r.pick([]string{"1", "7"}) // an integer beyond 2^53 next to another one
 	}
 	return lit + ".00000000000000000001"
